@@ -1,4 +1,4 @@
-HOOK_COMMITS = []
+HOOK_COMMITS = ["582e9e3"]
 
 NOT_APPLICABLE = []
 
